@@ -5,7 +5,8 @@ Domain   generated histories (1-6 generations per history, nesting to any depth 
          one bit, insert a byte, delete a byte, truncate, append newline, replace by same-length bytes, remove
          file} at drawn positions (first/last byte weighted) or removal of a chain file; command = every
          history-reading command {create, create -sf, verify, verify -sf, verify -dh, diff, info, info -sf with and
-         without root, flatten}, invoked on the victim's history or any ancestor history.
+         without root, flatten}, invoked on the victim's history or any ancestor history; in a third of the worlds
+         the ascmhl folders also hold the temporary files an interrupted create leaves behind.
 Oracle   scope(command) = the history it loads and all descendants; victim in scope => exit code is exactly 31
          (edited) / 33 (manifest removed) / 32 (chain removed) and the before/after snapshot (type, bytes, mtime,
          mode) of the whole scratch area, flatten destination included, is identical.  Out of scope: not asserted.
@@ -29,7 +30,7 @@ RULE = (
 )
 ASSUMPTIONS = ["one tamper at a time (plus a drawn share of double tampers); chain file content edits are outside the statement"]
 BUDGET = {"quick": (100, 4), "thorough": (7200, 16)}
-REQUIRED = ["older_generation", "nested_victim", "bitflip", "removed", "swapped_generation", "whitespace_only_edit", "chain_removed", "flatten", "info_sf_noroot"]
+REQUIRED = ["leftover_partial_files", "older_generation", "nested_victim", "bitflip", "removed", "swapped_generation", "whitespace_only_edit", "chain_removed", "flatten", "info_sf_noroot"]
 
 P1 = {
     "kinds": ["create"] * 6 + ["create_sf"] * 2 + ["put_new"] * 2 + ["overwrite", "mkdir"],
@@ -61,6 +62,8 @@ def _scn(draw):
     )
     scn["pick"] = draw(st.lists(st.integers(0, 1000), min_size=6, max_size=6))
     scn["double"] = draw(st.sampled_from([False, False, False, True]))
+    # what an interrupted create leaves behind in the ascmhl folders (the refusal must not tidy it up either)
+    scn["strays"] = draw(st.sampled_from([False, False, True]))
     return scn
 
 
@@ -213,6 +216,14 @@ def run_case(scn, ctx):
             hist.apply_step(w, scn, step)
         os.makedirs(w.abs("_flat"), exist_ok=True)  # flatten's destination parent exists before any snapshot is taken
         roots = w.history_roots()
+        if scn.get("strays"):
+            for i, h in enumerate(roots):
+                ms = w.manifests(h)
+                half = open(w.abs(ms[-1][1]), "rb").read() if ms else b"<?xml"
+                for name in (("ascmhl_manifest.partial", "ascmhl_chain.xml.partial") if i % 2 == 0 else ("ascmhl_manifest.partial",)):
+                    with open(w.abs(h + "/" + ASC + "/" + name), "wb") as fh:
+                        fh.write(half[: len(half) // 2])
+            ctx.event("leftover_partial_files")
         manifests = []
         for h in roots:
             ms = w.manifests(h)
